@@ -23,6 +23,8 @@ const (
 	Unknown
 )
 
+var dumpCounter int64
+
 func (r Result) String() string { return [...]string{"unsat", "sat", "unknown"}[r] }
 
 type Stats struct {
@@ -344,6 +346,12 @@ func (s *Solver) Check(f *sym.Factory, extra *sym.Term, timeoutMs int) Result {
 		res = Unknown
 	}
 	if res == Unknown || s.dead {
+		if d := os.Getenv("GOSYM_DUMP_UNKNOWN"); d != "" {
+			n := atomic.AddInt64(&dumpCounter, 1)
+			if n <= 5 {
+				os.WriteFile(fmt.Sprintf("%s/unknown-%d.smt2", d, n), []byte(s.Script(f, extra)), 0o644)
+			}
+		}
 		// a timed-out incremental z3 is not trustworthy afterwards: start afresh at the path scope
 		s.revive()
 		atomic.AddInt64(&Global.Unknown, 1)
